@@ -170,6 +170,29 @@ def run(chk):
         # the single column alone, as a flat sample of floats / ints
         if kind != "upcast":
             expect({"op": "pc1", "xs": [repr(v) for v in a]}, lambda a=a: float(st.pc(a)), f"pc[{kind}]", {"sample": [repr(v) for v in a]}, True)
+    # numeric cells whose Python hashes collide (-1 / -2, n / n + 2^61 - 1): rows coincide only when the cells are equal
+    for _ in range(8 if not thorough else 60):
+        n = rng.randint(3, 8)
+        a = [rng.choice([-1, -2, 5, 5 + (2 ** 61 - 1), 0]) for _ in range(n)]
+        b = [rng.choice(["x", "y"]) for _ in range(n)]
+        dfn = pd.DataFrame({"c1": a, "c2": b})
+        jrows = [[cell_json(x), cell_json(y)] for x, y in zip(dfn["c1"].tolist(), dfn["c2"].tolist())]
+        expect({"op": "pc_table", "rows": jrows}, lambda d=dfn: float(st.pc(d)), "pc[table-hash-colliding-ints]", {"rows": jrows}, True)
+        expect({"op": "pc1", "xs": [repr(v) for v in a]}, lambda a=a: float(st.pc(a)), "pc[hash-colliding-ints]", {"sample": [repr(v) for v in a]}, True)
+        k_ = rng.randint(1, n - 1)
+        dfa, dfb = dfn.iloc[:k_], dfn.iloc[k_:]
+        expect({"op": "pc_table", "rows": jrows[:k_], "rows2": jrows[k_:]}, lambda d=dfa, e=dfb: float(st.pc(d, e)), "pc2[table-hash-colliding-ints]",
+               {"rows": jrows[:k_], "rows2": jrows[k_:]}, True)
+    # pandas categorical / nullable-string Series: the VALUES are compared, whatever the category lists or codes are
+    for _ in range(12 if not thorough else 100):
+        a = [rng.choice(["CAS", "CAT", "CQ"]) for _ in range(rng.randint(2, 7))]
+        b = [rng.choice(["CAT", "CQ", "CW", "CAS"]) for _ in range(rng.randint(1, 7))]
+        ca, cb = pd.Series(a).astype("category"), pd.Series(b).astype("category")
+        cb_rev = pd.Series(pd.Categorical(b, categories=sorted(set(b), reverse=True)))
+        expect({"op": "pc1", "xs": a}, lambda c=ca: float(st.pc(c)), "pc[categorical]", {"sample": a}, True)
+        for nm, x, y in (("cat-cat", ca, cb), ("cat-cat-reversed-categories", ca, cb_rev), ("cat-list", ca, list(b)), ("list-cat", list(a), cb),
+                         ("string-dtype", pd.Series(a, dtype="string"), pd.Series(b, dtype="string"))):
+            expect({"op": "pc2", "as": a, "bs": b}, lambda x=x, y=y: float(st.pc(x, y)), f"pc2[{nm}]", {"a": a, "b": b}, bool(set(a) & set(b)))
     # a writable, unsorted ndarray is used again after the call, position-aligned with other data: it must not have been reordered
     for _ in range(10 if not thorough else 100):
         n = rng.randint(4, 9)
